@@ -399,6 +399,7 @@ def run(run, model):
     # renaming a local must not change what the program means: a binder named like a variant stays a binder (shared with C05 R05.9)
     from rules import c05 as _c05
     run.try_rule(_c05.r05_9, model)
+    run.try_rule(_c05.r05_2, model)
     # binders invented by the derive are compiler temporaries: they stay outside the user's name space (shared with C18 R18.3 / R18.12)
     from rules import c18 as _c18
     run.try_rule(_c18.r18_3, model)
